@@ -157,6 +157,11 @@ func stateInlineAnnotationText(s *Scanner, c byte) state {
 			s.found(lexeme.InlineAnnotationTextEnd)
 			s.found(lexeme.InlineAnnotationEnd)
 			s.step = stateInlineAnnotationTextSkip
+			if s.index+1 < s.dataSize && s.data[s.index] == '#' && s.data[s.index+1] == '#' {
+				// `###` opens a block comment, which may go on in the next lines:
+				// the rest of the line is skipped behind its end.
+				s.switchToComment()
+			}
 		}
 	}
 	return scanContinue
